@@ -101,7 +101,8 @@ impl FeelIterator {
       let mut iteration_context = FeelContext::default();
       'outer: loop {
         let mut is_empty_iteration = true;
-        for iteration_state in &self.iteration_states {
+        // outermost variable first, so that an inner variable of the same name shadows it
+        for iteration_state in self.iteration_states.iter().rev() {
           match iteration_state.iteration_type {
             FeelIterationType::Range => {
               let value = Value::Number(iteration_state.index.into());
